@@ -239,6 +239,52 @@ def _t_np_functions(srcs):
             R().visit(tree)
 
 
+def _t_small_idioms(srcs):
+    """the small re-spellings of refactoring round 6, applied everywhere at once: np.where(m)[0] -> np.flatnonzero(m); X[a, :] -> X[a]
+    (trailing full slice dropped) when `a` is a plain name; x ** 0.5 -> pow(x, 0.5); len(f(...)) > 0 / == 0 on the node-set helpers -> truthiness;
+    `while len(xs) > 0` -> `while xs` for names"""
+    import ast
+    SETS = {"pa", "ch", "neighbors", "adj", "na"}
+
+    class R(ast.NodeTransformer):
+        def visit_Subscript(self, node):
+            self.generic_visit(node)
+            v = node.value
+            if isinstance(node.ctx, ast.Load) and isinstance(node.slice, ast.Constant) and node.slice.value == 0 and isinstance(v, ast.Call) and \
+                    isinstance(v.func, ast.Attribute) and v.func.attr == "where" and isinstance(v.func.value, ast.Name) and v.func.value.id == "np" and len(v.args) == 1 and not v.keywords:
+                return ast.copy_location(ast.Call(func=ast.Attribute(value=ast.Name("np", ast.Load()), attr="flatnonzero", ctx=ast.Load()), args=v.args, keywords=[]), node)
+            if isinstance(node.ctx, ast.Load) and isinstance(node.slice, ast.Tuple) and len(node.slice.elts) == 2 and isinstance(node.slice.elts[0], ast.Name) and \
+                    isinstance(node.slice.elts[1], ast.Slice) and node.slice.elts[1].lower is None and node.slice.elts[1].upper is None and node.slice.elts[1].step is None:
+                return ast.copy_location(ast.Subscript(value=node.value, slice=node.slice.elts[0], ctx=node.ctx), node)
+            return node
+
+        def visit_BinOp(self, node):
+            self.generic_visit(node)
+            if isinstance(node.op, ast.Pow) and isinstance(node.right, ast.Constant) and node.right.value == 0.5:
+                return ast.copy_location(ast.Call(func=ast.Name("pow", ast.Load()), args=[node.left, node.right], keywords=[]), node)
+            return node
+
+        def _truthy(self, test):
+            # len(X) > 0 -> X ; len(X) == 0 -> not X   for X a call of a node-set helper or (in a while test) a plain name
+            if isinstance(test, ast.Compare) and len(test.ops) == 1 and isinstance(test.left, ast.Call) and isinstance(test.left.func, ast.Name) and test.left.func.id == "len" and \
+                    len(test.left.args) == 1 and isinstance(test.comparators[0], ast.Constant) and test.comparators[0].value == 0:
+                x = test.left.args[0]
+                if isinstance(x, ast.Call) and isinstance(x.func, ast.Name) and x.func.id in SETS:
+                    if isinstance(test.ops[0], ast.Gt):
+                        return x
+                    if isinstance(test.ops[0], ast.Eq):
+                        return ast.UnaryOp(ast.Not(), x)
+            return test
+
+        def visit_If(self, node):
+            self.generic_visit(node)
+            node.test = ast.copy_location(self._truthy(node.test), node.test)
+            return node
+    for pth, tree in srcs.items():
+        if "import numpy as np" in ast.unparse(tree)[:6000]:
+            R().visit(tree)
+
+
 def _t_np_operators(srcs):
     """operators spelled as numpy functions where that is the same for every operand the code can see: a @ b -> np.matmul(a, b), np.eye(n) -> np.identity(n)"""
     import ast
@@ -522,7 +568,7 @@ def _t_accept_lists(srcs):
                         n.body[k:k] = ast.parse("if not isinstance(%s, np.ndarray):\n    %s = np.array(%s)\n" % (a.arg, a.arg, a.arg)).body
 
 
-TREE_TRANSFORMS = {"@coerce_params": _t_coerce_params, "@accept_lists": _t_accept_lists, "@early_exit": _t_early_exit, "@numpy_alias": _t_numpy_alias, "@kwargs_calls": _t_kwargs_calls, "@strip_docs_annotate": _t_strip_docs_annotate, "@logging": _t_logging, "@traced": _t_traced, "@kwonly": _t_kwonly, "@extra_param": _t_extra_param, "@try_reraise": _t_try_reraise, "@np_functions": _t_np_functions, "@np_operators": _t_np_operators, "@private_module": _t_private_module, "@swap_branches": _t_swap_branches, "@name_conditions": _t_name_conditions, "@ternary_to_if": _t_ternary_to_if,
+TREE_TRANSFORMS = {"@coerce_params": _t_coerce_params, "@accept_lists": _t_accept_lists, "@early_exit": _t_early_exit, "@numpy_alias": _t_numpy_alias, "@kwargs_calls": _t_kwargs_calls, "@strip_docs_annotate": _t_strip_docs_annotate, "@logging": _t_logging, "@traced": _t_traced, "@kwonly": _t_kwonly, "@extra_param": _t_extra_param, "@try_reraise": _t_try_reraise, "@np_functions": _t_np_functions, "@small_idioms": _t_small_idioms, "@np_operators": _t_np_operators, "@private_module": _t_private_module, "@swap_branches": _t_swap_branches, "@name_conditions": _t_name_conditions, "@ternary_to_if": _t_ternary_to_if,
                    "@shim": _t_shim}
 
 
